@@ -88,6 +88,7 @@ class M:
         self.s = schema
         self.k = schema[0]
         self.valid = False
+        self.ever = False
         self.lmt = -1
         self.written = False
         self.invalidated_now = False
@@ -104,11 +105,13 @@ class M:
             self.value = []
             self.count = 0
         self.pre = None  # value at the start of the cycle (sets/dict keys) for delta expectations
+        self.erased_now = set()
 
     # --- cycle bookkeeping
     def begin_cycle(self):
         self.written = False
         self.invalidated_now = False
+        self.erased_now = set()
         if self.k == "TSS":
             self.pre = set(self.value)
         elif self.k == "TSD":
@@ -119,16 +122,23 @@ class M:
             for c in self.value:
                 c.begin_cycle()
 
+    def ever_written(self):
+        if self.k in ("TSL", "TSB"):
+            return any(c.ever_written() for c in self.value)
+        return self.ever
+
     def mark(self, t):
+        self.ever = True
         self.written = True
         self.lmt = t
         self.valid = True
 
     # --- reads
     def is_valid(self):
-        """statement validity (a tick window is valid only from its minimum count)."""
+        """statement validity (a tick window is valid only from its minimum count). A fixed-shape parent is valid from
+        its first write (through any child); only an explicit invalidation of the parent itself would end that."""
         if self.k in ("TSL", "TSB"):
-            return any(c.is_valid() for c in self.value)
+            return any(c.ever_written() for c in self.value)
         if self.k == "TSW":
             return self.valid and self.count >= self.s[3]
         return self.valid
@@ -231,10 +241,12 @@ class M:
                 elif o[0] == "erase":
                     if o[1] in self.value:
                         del self.value[o[1]]
+                        self.erased_now.add(o[1])
                         eff = True
                 elif o[0] == "clear":
                     if self.value:
                         eff = True
+                    self.erased_now |= set(self.value)
                     self.value.clear()
                 elif o[0] == "touch":
                     eff = True
@@ -347,11 +359,13 @@ def gen_op(draw, m: M, t, opts):
         for _ in range(n):
             live = sorted(m.value)
             choices = ["new", "new", "update", "update", "erase", "erase"] + (["set_erase", "set_erase", "clear", "erase_set"] + (["set_erase_set"] if draw(st.integers(0, 3)) == 0 else []) if opts.get("cancel", True) else [])
+            if opts.get("no_rewrite"):
+                choices = [c for c in choices if c not in ("erase_set", "set_erase_set")]
             c = "new" if grow else draw(st.sampled_from(choices))
-            fresh = next(x for x in range(100000) if x not in m.value)
+            fresh = next(x for x in range(100000) if x not in m.value and x not in m.erased_now)
             if c == "new" or not live:
                 key = draw(st.integers(0, universe * (5 if grow else 1)))
-                if key in m.value:
+                if key in m.value or (opts.get("no_rewrite") and key in m.erased_now):
                     key = fresh
                 ops.append(child_write(key))
             elif c == "update":
